@@ -55,7 +55,7 @@ JudgeLife(rec) ==
         written[k \in 0..Len(ops)] == IF k = 0 THEN 0 ELSE written[k - 1] + ops[k].n
         Bad(k) == LET st == rec.steps[k] IN
                   CASE ops[k].op \in {"w", "ws"} -> st.err \/ st.n # ops[k].n
-                    [] ops[k].op = "s" -> st.sum_is # rec.in.alg \/ st.size # written[k]
+                    [] ops[k].op \in {"s", "sp"} -> st.sum_is # rec.in.alg \/ st.size # written[k]
                     [] ops[k].op = "e" -> st.sum_is # rec.in.alg \/ st.size # written[k] \/ st.entry_alg # rec.in.alg
         bad == {k \in 1..Len(ops) : Bad(k)}
     IN Checks("hasher-lifecycle",
